@@ -380,6 +380,43 @@ static void s14(void) {
     finish(h, c);
 }
 
+/* S15: the second life of a task object.  T is scheduled for a far-future time and cancelled; after its CANCELED call the same
+ * object (not re-initialised, as the header allows for a task that has completed) is handed over again with schedule_now.
+ * Nothing in this scenario needs time to pass, so the run must happen with the virtual clock still before the far time of
+ * the object's first life: a scheduler that parks the task until then has not scheduled it "now" (added after a seeded
+ * change that no longer reset the task's time in schedule_now) */
+static int s15_cancel_seen;
+static void s15(void) {
+    setup();
+    uint64_t now = 0;
+    aws_high_res_clock_get_ticks(&now);
+    uint64_t far = now + 3600ull * 1000000000ull;
+    aws_thread_scheduler_schedule_future(ts, &task[0], far);
+    aws_thread_scheduler_cancel_task(ts, &task[0]);
+    /* wait for the CANCELED call of the first life */
+    pthread_mutex_lock(&hm);
+    while (tl[0].n == 0) {
+        pthread_mutex_unlock(&hm);
+        vs_user_yield();
+        pthread_mutex_lock(&hm);
+    }
+    pthread_mutex_unlock(&hm);
+    VS_CHECK(tl[0].n == 1 && tl[0].status[0] == AWS_TASK_STATUS_CANCELED, "first-life", "first life of the task: %d invocation(s), first %s", tl[0].n, st(tl[0].status[0]));
+    int first_n = tl[0].n;
+    aws_thread_scheduler_schedule_now(ts, &task[0]);
+    pthread_mutex_lock(&hm);
+    while (!ran_flag) pthread_cond_wait(&hc, &hm);
+    pthread_mutex_unlock(&hm);
+    VS_CHECK(tl[0].n == first_n + 1 && tl[0].status[first_n] == AWS_TASK_STATUS_RUN_READY, "second-life", "second life of the task: %d invocation(s)", tl[0].n - first_n);
+    VS_CHECK(tl[0].when[first_n] < far, "now-task-delayed-until-stale-time", "the re-used task was handed over with schedule_now at %llu but ran only at %llu, the time (%llu) it had been scheduled for in its first life",
+             (unsigned long long)now, (unsigned long long)tl[0].when[first_n], (unsigned long long)far);
+    aws_thread_scheduler_release(ts);
+    after_release = 1;
+    VS_CHECK(vs_threads_unfinished() == 0, "thread-alive-after-release", "%d thread(s) still running after the last release returned", vs_threads_unfinished());
+    VS_CHECK(tl[0].n == first_n + 1, "invoked-twice", "task invoked %d times in its second life", tl[0].n - first_n);
+    VS_CHECK(ga.live_blocks == 0, "leak", "%llu allocation(s) still live after the last release", (unsigned long long)ga.live_blocks);
+}
+
 static uint64_t user_digest(void) {
     uint64_t h = 1469598103934665603ull;
     for (int i = 0; i < NT; ++i) {
@@ -407,6 +444,7 @@ int main(int argc, char **argv) {
         {.name = "S12-cancel-pulled-task-with-timed-queue", .run = s12, .bound_quick = 2, .bound_thorough = 3, .digest = user_digest},
         {.name = "S13-cancellation-callback-schedules-follow-up", .run = s13, .bound_quick = 2, .bound_thorough = 3, .digest = user_digest},
         {.name = "S14-only-task-parked-at-uint64-max", .run = s14, .bound_quick = 3, .bound_thorough = 4, .digest = user_digest},
+        {.name = "S15-task-object-reused-after-cancel", .run = s15, .bound_quick = 2, .bound_thorough = 3, .digest = user_digest, .no_timeouts = 1}, /* time passes only when nobody can run */
         {.name = "S7-three-clients", .run = s7, .bound_quick = -1, .bound_thorough = 1, .digest = user_digest},
     };
     return vsx_main(sc, (int)(sizeof(sc) / sizeof(sc[0])));
